@@ -191,6 +191,14 @@ func c09Values() []c09Value {
 	res("DictR", "resource-dictionary", `{"a": <- C.mkR(1)}`)
 	vs = append(vs,
 		c09Value{Name: "OptR", Expr: "C.mkR(1)", Decl: "@AnyResource?", Resource: true, Class: "optional", UnwrapOf: "R", Kind: "optional"},
+		// two and three optional levels, held under their own static type (resource and struct twin)
+		c09Value{Name: "OptOptR", Expr: "C.mkR(1)", Decl: "@C.R??", Resource: true, Class: "optional", UnwrapOf: "R", Kind: "optional"},
+		c09Value{Name: "OptOptOptR", Expr: "C.mkR(1)", Decl: "@C.R???", Resource: true, Class: "optional", UnwrapOf: "R", Kind: "optional"},
+		c09Value{Name: "OptRtyped", Expr: "C.mkR(1)", Decl: "@C.R?", Resource: true, Class: "optional", UnwrapOf: "R", Kind: "optional"},
+		c09Value{Name: "OptOptS", Expr: "C.S(1)", Decl: "C.S??", Class: "optional", UnwrapOf: "S", Kind: "optional"},
+		c09Value{Name: "OptOptOptS", Expr: "C.S(1)", Decl: "C.S???", Class: "optional", UnwrapOf: "S", Kind: "optional"},
+		c09Value{Name: "NilOptR", Expr: "nil", Decl: "@C.R??", Resource: true, Class: "nil", Kind: "nil"},
+		c09Value{Name: "NilOptS", Expr: "nil", Decl: "C.S??", Class: "nil", Kind: "nil"},
 	)
 	return vs
 }
@@ -335,15 +343,15 @@ func c09ForceScript(v c09Value, targets []tygen.Ty) string {
 	sb.WriteString(c09Header(v))
 	if !v.Resource {
 		sb.WriteString(c09Decl(v, "v"))
-		sb.WriteString("  let out: [AnyStruct] = [v]\n")
+		sb.WriteString("  let out: [AnyStruct] = [v, v.getType().identifier]\n")
 		for _, t := range targets {
-			fmt.Fprintf(&sb, "  out.append(v as! %s)\n", t.Source)
+			fmt.Fprintf(&sb, "  out.append(v as! %s)\n  out.append((v as! %s).getType().identifier)\n", t.Source, t.Source)
 		}
 	} else {
 		// resources cannot be returned from a script: report their type and uuid-free rendering
-		sb.WriteString("  let out: [AnyStruct] = [\"resource\"]\n")
+		sb.WriteString("  let out: [AnyStruct] = [\"resource\", \"\"]\n")
 		for _, t := range targets {
-			fmt.Fprintf(&sb, "  if true { let v: %s <- %s; let before = v.getType(); let c <- v as! %s; out.append(before.identifier.concat(\"|\").concat(c.getType().identifier)); destroy c }\n",
+			fmt.Fprintf(&sb, "  if true { let v: %s <- %s; let before = v.getType(); let c <- v as! %s; out.append(before.identifier.concat(\"|\").concat(c.getType().identifier)); out.append(\"\"); destroy c }\n",
 				v.Decl, v.Expr, t.Source)
 		}
 	}
@@ -584,12 +592,36 @@ func c09JudgeForce(env *mc.Env, l *rt.Ledger, v c09Value, o *c09Obs, vm bool, fa
 			return false
 		}
 		arr, ok := res.Value.(cadence.Array)
-		if !ok || len(arr.Values) != len(ts)+1 {
+		if !ok || len(arr.Values) != 2*len(ts)+2 {
 			return false
 		}
 		orig := arr.Values[0].String()
+		origType := c09Unquote(arr.Values[1].String())
 		for i, t := range ts {
-			got := arr.Values[i+1].String()
+			got := arr.Values[2*i+2].String()
+			gotType := c09Unquote(arr.Values[2*i+3].String())
+			if v.Resource {
+				if parts := strings.SplitN(c09Unquote(got), "|", 2); len(parts) == 2 {
+					origType, gotType = parts[0], parts[1]
+				}
+			}
+			// "Casts first unwrap optional values unless the target is AnyStruct or
+			// AnyResource (or an optional of them)": for those targets the value is
+			// kept as it is and only boxed up to the target's optional depth, so its
+			// run-time type keeps its base and has max(own, target) optional levels.
+			if (v.Class == "optional" || v.Class == "plain") && c09IsAnyish(t.Sema) && origType != "" && gotType != "" {
+				origBase, wantDepth := c09Peel(origType)
+				gotBase, gotDepth := c09Peel(gotType)
+				if d := c09OptionalDepth(t.Sema); d > wantDepth {
+					wantDepth = d
+				}
+				if origBase != gotBase || gotDepth != wantDepth {
+					add("cast-to-Any-target-changes-optional-levels", t,
+						fmt.Sprintf("run-time type before the cast %s, after %s (expected %d optional levels)", origType, gotType, wantDepth))
+					continue
+				}
+				classes["force:any-target-optional-levels-kept"]++
+			}
 			if v.Resource {
 				// resources cannot leave a script: identity is judged on the dynamic
 				// type, modulo the optional wrapping the cast target adds or removes
@@ -642,6 +674,32 @@ func c09JudgeForce(env *mc.Env, l *rt.Ledger, v c09Value, o *c09Obs, vm bool, fa
 		}
 	}
 	return viols
+}
+
+func c09Unquote(s string) string { return strings.Trim(s, "\"") }
+
+// c09Peel splits a run-time type identifier `((X)?)?` into X and its outer
+// optional depth. Entitlements are ignored (they are stripped by design when
+// a value is boxed into AnyStruct).
+func c09Peel(s string) (base string, depth int) {
+	s = c09StripAuth(s)
+	for strings.HasPrefix(s, "(") && strings.HasSuffix(s, ")?") {
+		s = s[1 : len(s)-2]
+		depth++
+	}
+	return s, depth
+}
+
+func c09OptionalDepth(t sema.Type) int {
+	d := 0
+	for {
+		o, ok := t.(*sema.OptionalType)
+		if !ok {
+			return d
+		}
+		d++
+		t = o.Type
+	}
 }
 
 var c09AuthRe = regexp.MustCompile(`auth\([^)]*\)`)
